@@ -36,5 +36,13 @@ META["C09"] = {
     "note": "Trusted: Lean kernel (propext, Quot.sound, Classical.choice where simp uses it), the hand transcription (validated by replay each run), the Go fakes and driver. Panics are tolerated by this judgement (C11). Go-level aliasing and the scheduler are outside.",
 }
 
+META["C07"] = {
+    "category": "proof",
+    "design_ref": "DESIGN.md section 5 / C07",
+    "technique": "Lean 4: gate monitor over the call trace (effect calls forbidden until authentication=yes and, for inbox POSTs, blocked=no); theorem 'an open gate accepts every program' by induction on programs + a walk of each entry point's prefix, for all requests, configurations and environments; program equalities for non-ActivityPub requests and disabled protocols; trace-replay correspondence over the request product",
+    "text": "For every request, configuration and every behaviour of the application, the five entry points make no Database/Transport/side-effect-callback call before the checks have passed (PostInbox additionally not before Blocked answered no); a non-ActivityPub request IS the program 'return not-handled' (no call, no write) and a disabled protocol's whole trace is the single status 405. Proved on the transcription; the transcription is replayed against ~5k real traces per run and the same monitor is applied to the implementation's traces.",
+    "note": "Trusted: Lean kernel, transcription (validated by replay), fakes. 'Consulting the application' = any call across the application interfaces.",
+}
+
 _ALL = ["C%02d" % i for i in range(1, 21)]
 NOT_APPLICABLE = [{"property_id": p, "reason": PENDING} for p in _ALL if p not in META]
